@@ -27,7 +27,7 @@ impl Deserialize for Vkeys {
                 cbor_event::Len::Len(n) => arr.len() < n as usize,
                 cbor_event::Len::Indefinite => true,
             } {
-                if is_break_tag(raw, "Vkeys")? {
+                if is_break_tag(raw, len, "Vkeys")? {
                     break;
                 }
                 arr.push(Vkey::deserialize(raw)?);
